@@ -14,6 +14,8 @@ import (
 	"strconv"
 	"strings"
 	"sync"
+	"syscall"
+	"time"
 
 	"github.com/siglens/siglens/pkg/config"
 	"github.com/siglens/siglens/pkg/segment/metadata"
@@ -59,6 +61,7 @@ func init() {
 		}
 		return map[string]interface{}{"file_bytes": sutils.MAX_WAL_FILE_SIZE_BYTES, "block_dps": sutils.WAL_BLOCK_FLUSH_SIZE}, nil
 	})
+	reg("wal_wait_ticks", cmdWalWaitTicks)
 	reg("wal_blocks", cmdWalBlocks)
 	reg("wal_mnm", cmdWalMnm)
 	reg("wal_metas", cmdWalMetas)
@@ -305,4 +308,41 @@ func cmdWalOpenFds(c Cmd) (interface{}, error) {
 		}
 	}
 	return out, nil
+}
+
+// wal_wait_ticks{meta, timeout_ms}: wait until the REAL timeBasedMetaEntryWalFlush goroutine (1 s period, started by
+// InitMetricsSegStore) has rewritten the meta-entry log `meta` times, observed from outside through the file's inode /
+// modification time (a rewrite = changes that are at least 300 ms apart).  Nothing is driven here: the loop bodies of the
+// engine's own timers run (the one-iteration shims are copies of those bodies and cannot see a change made to them).
+// Two rewrites guarantee that one of them began after this call; the 1 s datapoint / name flushers tick in the same span.
+func cmdWalWaitTicks(c Cmd) (interface{}, error) {
+	want := int(c.i64("meta", 2))
+	timeout := time.Duration(c.i64("timeout_ms", 6000)) * time.Millisecond
+	p := filepath.Join(hostBase(), "wal-ts", "metaentry", "metricsMetaEntry.wal")
+	sig := func() string {
+		st, err := os.Stat(p)
+		if err != nil {
+			return "absent"
+		}
+		ino := uint64(0)
+		if sys, ok := st.Sys().(*syscall.Stat_t); ok {
+			ino = sys.Ino
+		}
+		return fmt.Sprintf("%d/%d/%d", ino, st.ModTime().UnixNano(), st.Size())
+	}
+	t0 := time.Now()
+	last, lastChange, seen := sig(), time.Time{}, 0
+	for seen < want && time.Since(t0) < timeout {
+		time.Sleep(15 * time.Millisecond)
+		cur := sig()
+		if cur != last {
+			if time.Since(lastChange) > 300*time.Millisecond {
+				seen++
+			}
+			last, lastChange = cur, time.Now()
+		}
+	}
+	// let the rewrite that was just seen finish (its last write / rename is within a millisecond of the first)
+	time.Sleep(40 * time.Millisecond)
+	return map[string]interface{}{"meta_rewrites_seen": seen, "waited_ms": time.Since(t0).Milliseconds()}, nil
 }
